@@ -407,3 +407,180 @@ func isElemBase(base ssa.Value, p *ssa.Parameter) (ssa.Value, bool) {
 	}
 	return nil, false
 }
+
+// ruleSignatureSchemePolicy (C11): the (hash, signature) pair a peer declares next to a handshake
+// signature (ServerKeyExchange, CertificateVerify of either version) is accepted only if it is an
+// element of the local signature scheme list (cfg.LocalSignatureSchemes): with every comparison
+// of a list element against the declared pair assumed false, the verification of that signature -
+// and with it every advancing exit behind it - is unreachable (helpers followed). A membership
+// test over any other list (the certificate-chain schemes, the defaults) does not count.
+func ruleSignatureSchemePolicy(c *Ctx, r *Report) {
+	const rule = "signature-scheme-policy"
+	isPolicyList := func(s ssa.Value) bool {
+		ls := c.OriginsIP(s, 0)
+		return len(ls) > 0 && allLeaves(ls, func(l ssa.Value) bool {
+			_, f, _, ok := fieldLoad(l)
+			return ok && f == "LocalSignatureSchemes"
+		})
+	}
+	// the slice an element value was taken from
+	var elemSlice func(v ssa.Value, d int) ssa.Value
+	elemSlice = func(v ssa.Value, d int) ssa.Value {
+		if d > 4 {
+			return nil
+		}
+		switch x := v.(type) {
+		case *ssa.Field:
+			return elemSlice(x.X, d+1)
+		case *ssa.UnOp:
+			if x.Op == token.MUL {
+				return elemSlice(x.X, d+1)
+			}
+		case *ssa.FieldAddr:
+			return elemSlice(x.X, d+1)
+		case *ssa.IndexAddr:
+			return x.X
+		case *ssa.Index:
+			return x.X
+		case *ssa.Alloc: // the range variable is a local cell filled from the slice element
+			var found ssa.Value
+			for _, ref := range *x.Referrers() {
+				if st, ok := ref.(*ssa.Store); ok && st.Addr == ssa.Value(x) {
+					sl := elemSlice(st.Val, d+1)
+					if sl == nil || (found != nil && found != sl) {
+						return nil
+					}
+					found = sl
+				}
+			}
+			return found
+		}
+		return nil
+	}
+	n := 0
+	for _, s := range c.CallsTo(nameIs("internal/handshakecrypto.VerifyKeySignature", "internal/handshakecrypto.VerifyCertificateVerify")) {
+		call, ok := s.Call.(*ssa.Call)
+		if !ok || !inModule(s.Fn) || strings.HasSuffix(s.Fn.Pkg.Pkg.Path(), "internal/handshakecrypto") {
+			continue
+		}
+		fn := s.Fn
+		r.Sites += len(fn.Blocks)
+		n++
+		matched := 0
+		assume := func(v ssa.Value) (Val, bool) {
+			switch x := v.(type) {
+			case *ssa.BinOp:
+				if x.Op != token.EQL && x.Op != token.NEQ {
+					return unknown, false
+				}
+				for _, side := range []ssa.Value{x.X, x.Y} {
+					_, f, _, ok := fieldLoad(side)
+					if !ok || (f != "Hash" && f != "Signature") {
+						continue
+					}
+					if sl := elemSlice(side, 0); sl != nil && isPolicyList(sl) {
+						matched++
+						return vBool(x.Op == token.NEQ), true
+					}
+				}
+			case *ssa.Call:
+				nm := calleeName(&x.Call)
+				if (strings.HasPrefix(nm, "slices.Contains") || strings.HasPrefix(nm, "slices.Index")) && len(x.Call.Args) > 0 && isPolicyList(x.Call.Args[0]) {
+					matched++
+					if strings.HasPrefix(nm, "slices.Index") {
+						return vInt(-1), true
+					}
+					return vBool(false), true
+				}
+			}
+			return unknown, false
+		}
+		w := &Walk{Fn: fn, Follow: followSamePkg(fn), Assume: assume}
+		w.FromEntry()
+		key := short(fn) + ":" + strings.TrimPrefix(calleeName(&call.Call), "internal/handshakecrypto.")
+		if matched == 0 {
+			r.Bad(rule, key, c.ipos(call), "the declared (hash, signature) pair of the peer's handshake signature is never compared with the elements of cfg.LocalSignatureSchemes: a scheme outside the local policy (for instance one allowed only inside certificate chains) is accepted for the handshake signature")
+			continue
+		}
+		r.Check(!w.Reached[call], rule, key, c.ipos(call), "unreachable when the declared pair is not in cfg.LocalSignatureSchemes", "the peer's handshake signature is verified (and the handshake advances) although the declared (hash, signature) pair matched no element of cfg.LocalSignatureSchemes")
+	}
+	r.Floor(rule, n, 3)
+}
+
+// ruleSuiteFitsKeyType (C11): the server's cipher-suite list is narrowed to the suites its
+// certificate key can serve before any handshake starts, and the certificate consulted is the one
+// the configuration would present (HandshakeConfig.GetCertificate, which also covers certificates
+// supplied by a callback) - not a static list that may be empty while a callback serves an RSA key.
+func ruleSuiteFitsKeyType(c *Ctx, r *Report) {
+	const rule = "suite-fits-key-type"
+	n := 0
+	for _, s := range c.CallsTo(nameIs("dtls.filterCipherSuitesForCertificate")) {
+		call, ok := s.Call.(*ssa.Call)
+		if !ok {
+			continue
+		}
+		fn := s.Fn
+		r.Sites += len(fn.Blocks)
+		n++
+		ls := c.Origins(call.Call.Args[0], 0)
+		var ds []string
+		for _, l := range ls {
+			ds = append(ds, c.describe(l))
+		}
+		fromGet := allLeaves(ls, func(l ssa.Value) bool {
+			return isCallResult(l, func(nm string) bool { return strings.HasSuffix(nm, "HandshakeConfig).GetCertificate") })
+		})
+		r.Check(fromGet, rule, short(fn)+":certificate-source", c.ipos(call), "filtered by the certificate GetCertificate would present", "the suite list is filtered by ["+strings.Join(dedup(ds), ", ")+"], not by the certificate HandshakeConfig.GetCertificate presents: a certificate served by a callback is not taken into account and a suite its key cannot serve stays negotiable")
+		// the filtered list is what the handshake uses
+		stored := false
+		for _, st := range c.StoresTo("internal/config.HandshakeConfig", "LocalCipherSuites") {
+			if st.Fn == fn && anyLeaf(c.Origins(st.Val, 0), func(l ssa.Value) bool { return l == ssa.Value(call) }) {
+				stored = true
+			}
+		}
+		r.Check(stored, rule, short(fn)+":stored", c.ipos(call), "the filtered list replaces LocalCipherSuites", "the result of the key-type filter is not stored back into LocalCipherSuites")
+		// a server cannot start a handshake without passing the filter (the filter may sit in a
+		// private helper: then the function that starts the handshake is its caller)
+		host := fn
+		starts := findCalls(host, nameIs("(*dtls.Conn).handshake"))
+		if len(starts) == 0 {
+			if sites, closed := c.staticCallers(fn); closed && len(sites) == 1 {
+				host = sites[0].Fn
+				starts = findCalls(host, nameIs("(*dtls.Conn).handshake"))
+			}
+		}
+		if len(starts) == 0 {
+			r.Unk(rule, short(fn)+":before-start", c.pos(fn.Pos()), "the function that filters does not start the handshake: order not decided")
+			continue
+		}
+		w := &Walk{Fn: host, Follow: followSamePkgExcept(host, "handshake"), Assume: func(v ssa.Value) (Val, bool) {
+			if _, f, _, ok := fieldLoad(v); ok && f == "IsClient" {
+				return vBool(false), true
+			}
+			return unknown, false
+		}}
+		w.VisitRaw = func(in ssa.Instruction, _ Env, _ map[*ssa.Phi]ssa.Value) bool { return in != ssa.Instruction(call) }
+		w.FromEntry()
+		by := false
+		for _, st := range starts {
+			if w.Reached[st] {
+				by = true
+			}
+		}
+		r.Check(!by, rule, short(fn)+":before-start", c.ipos(starts[0]), "a server always filters before the handshake starts", "a server can start its handshake on a path that skipped the key-type filter of the suite list")
+	}
+	r.Floor(rule, n, 1)
+}
+
+// followSamePkgExcept is followSamePkg minus the named functions.
+func followSamePkgExcept(fn *ssa.Function, names ...string) func(*ssa.Function) bool {
+	base := followSamePkg(fn)
+	return func(callee *ssa.Function) bool {
+		for _, n := range names {
+			if callee.Name() == n {
+				return false
+			}
+		}
+		return base(callee)
+	}
+}
